@@ -69,18 +69,30 @@ func c35Scenario(withCheckpointTimer bool) *scenario {
 				vrt.AllowTimer(tickPrimaryd, 1)
 			}
 			acked := map[int32]bool{1: true, 2: true}
+			// when each write request was issued relative to the shutdown request
+			shutdownRequested := false
+			issued := map[int32]string{1: "before-shutdown-request", 2: "before-shutdown-request"}
+			phase := func() string {
+				if shutdownRequested {
+					return "during-shutdown"
+				}
+				return "before-shutdown-request"
+			}
 			w1 := vrt.Spawn("W1", func() {
+				issued[100] = phase()
 				if err := w.WriteCS(c18Fix, csFixed([]time.Time{c18T0.Add(time.Hour)}, []string{"V"}, []any{[]int32{100}}), false); err == nil {
 					acked[100] = true
 				}
 			})
 			w2 := vrt.Spawn("W2", func() {
+				issued[200] = phase()
 				if err := w.WriteCS(c18Var, csVar([]time.Time{c18T0.Add(10 * time.Minute)}, []string{"V"}, []any{[]int32{200}}), true); err == nil {
 					acked[200] = true
 				}
 			})
 			_, _ = w1, w2
 			s := vrt.Spawn("Shutdown", func() {
+				shutdownRequested = true
 				w.WAL.Shutdown()
 				// the process exits here: the device image and the query results of this very instant
 				vrt.Atomic(func() {
@@ -91,6 +103,11 @@ func c35Scenario(withCheckpointTimer bool) *scenario {
 						a[k] = v
 					}
 					x.data["acked"] = a
+					is := map[int32]string{}
+					for k, v := range issued {
+						is[k] = v
+					}
+					x.data["issued"] = is
 					x.note("shutdown returned; acked=%v before=%v", a, x.data["before"])
 				})
 			})
@@ -129,9 +146,16 @@ func c35Scenario(withCheckpointTimer bool) *scenario {
 					return m
 				}
 				bc, ac := cnt(b), cnt(a)
+				issued, _ := x.data["issued"].(map[int32]string)
+				dupPhase := ""
 				for t, n := range ac {
 					if n > bc[t] && bc[t] > 0 {
 						sym = "duplicate-after-restart"
+						var tag int32
+						fmt.Sscan(t, &tag)
+						if ph := issued[tag]; ph == "before-shutdown-request" || dupPhase == "" {
+							dupPhase = ph
+						}
 					}
 				}
 				for t, n := range bc {
@@ -141,6 +165,10 @@ func c35Scenario(withCheckpointTimer bool) *scenario {
 				}
 				if sym == "differs" && len(a) > len(b) {
 					sym = "appears-after-restart" // an unacknowledged write surfacing is still a different query result
+				}
+				if sym == "duplicate-after-restart" {
+					_ = dupPhase
+					rt += "|" + c35DupCause(x, sch, img, bc, ac)
 				}
 				vs = append(vs, mc.Violation{Sig: sym + "|" + rt, What: fmt.Sprintf("bucket %s: just before the shutdown returned a query gave [%s], after the restart [%s] (acked %v)", k, before[k], after[k], acked)})
 			}
@@ -180,4 +208,62 @@ func init() {
 		}
 		return 2
 	}), schedRun(c35Scens, "C35"))
+}
+
+// c35DupCause explains why a record is stored twice after the restart, from the WAL the shutdown left behind:
+// its transaction is covered by a checkpoint record yet was replayed; or it was logged after the last
+// checkpoint — by the writer's own inline flush (a write racing with the shutdown) or by the WAL writer loop.
+func c35DupCause(x *execCtx, sch *vrt.Sched, img *vos.FS, bc, ac map[string]int) string {
+	dup := map[int32]bool{}
+	for t, n := range ac {
+		if n > bc[t] && bc[t] > 0 {
+			var tag int32
+			fmt.Sscan(t, &tag)
+			dup[tag] = true
+		}
+	}
+	cause := "unexplained"
+	img.Walk(world.Root, func(p string, dir bool, size int64, read func() []byte) {
+		if dir || !strings.HasSuffix(p, ".walfile") {
+			return
+		}
+		msgs := mc.DecodeWAL(read())
+		ckpt := int64(-1)
+		for _, m := range msgs {
+			if m.Kind == "TI" && m.Dest == 1 && m.Status == 2 && m.TGID > ckpt {
+				ckpt = m.TGID
+			}
+		}
+		for _, m := range msgs {
+			if m.Kind != "TG" {
+				continue
+			}
+			rows, ok := decodeTGRows(m.Body)
+			hit := false
+			for _, r := range rows {
+				if ok && dup[r.tag] {
+					hit = true
+				}
+			}
+			if !hit {
+				continue
+			}
+			if m.TGID <= ckpt {
+				cause = "replayed-although-checkpointed"
+				continue
+			}
+			who := "wal-writer-loop"
+			for _, op := range x.dev.Log() {
+				if op.Kind == vos.OpWrite && op.Path == p && op.Off <= int64(m.Off) && int64(m.Off) < op.Off+int64(len(op.Data)) {
+					if op.Tid < len(sch.Threads) && strings.HasPrefix(sch.Threads[op.Tid].Name, "W") {
+						who = "inline-flush-by-writer"
+					}
+				}
+			}
+			if cause == "unexplained" || who == "wal-writer-loop" {
+				cause = "logged-after-last-checkpoint-by-" + who
+			}
+		}
+	})
+	return cause
 }
